@@ -6,4 +6,5 @@ from . import bond  # noqa: F401
 from . import core  # noqa: F401
 from . import mol_gen  # noqa: F401
 from . import stochastic  # noqa: F401
+from . import mixture  # noqa: F401
 from . import system  # noqa: F401
